@@ -219,6 +219,12 @@ def enumerate_cases(tier, seed):
             for dims, tdtype in ((2, "int32"), (3, "uint16"), (2, "uint16")):
                 cases.append({"fam": "fit", "func": func, "ntargets": 2, "weights": weights, "dims": dims,
                               "range": "sub", "rtype": "pixel", "tdtype": tdtype})
+    # target frames with masked (NaN) pixels inside the fitted region
+    for func in FUNCS:
+        for weights in ("none", "scalar"):
+            for dims in (2, 3):
+                cases.append({"fam": "fit", "func": func, "ntargets": 2, "weights": weights, "dims": dims,
+                              "range": "sub", "rtype": "pixel", "tmask": True})
     # input arguments: the same value for two consecutive targets
     for func in FUNCS:
         for ntargets in (2, 3):
@@ -276,7 +282,7 @@ def expected_size(tier, seed):
     over = [(a, b) for a, b in subranges(ROWS + 2) if b > ROWS or thorough]
     rsize = sum(1 if a == 0 else 2 for a, b in over)
     time = sum((1 + nsub(3) + 2) * (1 + nsub(nf) + 1) for nf in ((3, 2, 4) if thorough else (3,)))
-    fit = len(FUNCS) * 3 * ((3 + 4) + (3 + 4) + (3 + 4)) + len(FUNCS) * 2 + len(FUNCS) * 3 * 3
+    fit = len(FUNCS) * 3 * ((3 + 4) + (3 + 4) + (3 + 4)) + len(FUNCS) * 2 + len(FUNCS) * 3 * 3 + len(FUNCS) * 2 * 2
     combos = 3 * 2 * 2 * 2 * 2
     runs = (combos * 2 if thorough else combos // 2 + combos // 4) + 1 + 2 + 4
     nrange = rows + cols + tsize + rsize + time
@@ -296,8 +302,13 @@ def build(td, seed, *, res, tgt, tshape, times=None, func="sum_of_abs_residuals"
     targets, tfiles, wfiles, wvals = [], [], [], []
     cs = seed if content_seed is None else content_seed      # file NAMES depend on `seed`, file CONTENT on `cs`
     tdtype = calkw.pop("tdtype", None)
+    tmask = calkw.pop("tmask", False)
     for i in range(ntargets):
         arr = target_array(i, tuple(tshape), cs)
+        if tmask:
+            # masked pixels (NaN) in the target frames, inside the fitted region: they take no part in the figure of merit
+            arr[..., 1, 2] = np.nan
+            arr[..., 2, 4 - i % 2] = np.nan
         p = td / f"target{i}_{seed}.npy"
         if tdtype:
             # target frames stored with an integer type (raw ADU frames): the fitness is computed on their values
@@ -487,7 +498,7 @@ def _run_problem(case, seed, td):
         else:
             cal, proc, info = build(td, seed, res=res, tgt=tgt, tshape=tshape, times=times, func=func, ntargets=ntargets,
                                     weights=weights, rtype=rtype, pygmo_seed=1, bdup=bool(case.get("bdup")),
-                                    tdtype=case.get("tdtype"))
+                                    tdtype=case.get("tdtype"), tmask=bool(case.get("tmask")))
         problem, _ = calib.real_problem(cal, proc)
     except Exception as e:  # noqa: BLE001
         exc = e
